@@ -203,7 +203,7 @@ class Spec(PropSpec):
     props_file = "C13.v"
     coq_targets = ["C13.vo"]
     theorems = ["c13_index_coherent", "c13_remove_clears", "c13_connect_iff", "c13_connect_result", "c13_synsent_outcomes",
-                "c13_accept_pops", "c13_accept_once", "c13_accept_logs", "c13_reclaimed_partial", "c13_close_open", "c13_reclaimed_refuted", "c13_nonvacuous"]
+                "c13_accept_pops", "c13_accept_once", "c13_accept_logs", "c13_owned", "c13_listeners_held", "c13_reclaimed_partial", "c13_close_open", "c13_reclaimed_refuted", "c13_nonvacuous"]
     consts = F.NET_CONSTS
     anchors = F.NET_ANCHORS
     harness_bins = ["nettcp"]
@@ -217,18 +217,14 @@ class Spec(PropSpec):
     assumptions = [
         "c13_index_coherent quantifies over every syscall sequence with arbitrary arguments and every inbound packet sequence (kreach)",
         "c13_connect_iff is the decision taken when the SYN / the reply is processed; reachability of the listener's host is the wire's business (the harness is the wire)",
-        "application handles are modelled by the world's slot table (harness/src/bin/nettcp.rs); wakers are not modelled",
+        "c13_owned / c13_accept_once are stated on `ostep`: one host's kernel together with the set of fds its application holds (the per-host view of the harness slot table); the application only names fds it holds, a panicking accept is not a step; wakers are not modelled",
         "sequence numbers are unbounded naturals; ephemeral-port wrap-around (16384 connects) is not exercised",
     ]
     partial_note = ("c13_reclaimed_partial: proved are the reap post-condition of every egress pass, immediate removal on close of "
                     "sockets without a live connection, linger/RST on close of open ones, and the strictly decreasing retransmit "
                     "measure that bounds how long a lingering socket with something in flight survives; refuted on the code as "
                     "it is: reclamation of a lingering socket that has nothing in flight and whose peer is gone "
-                    "(class OrphanLinger, c13_reclaimed_refuted). NOT proved: the ownership partition over whole histories (c13_owned: "
-                    "every table entry is held by a handle, queued for accept, kernel-closed or a handshaking child of a live "
-                    "listener) - coq/NetTcp/C13_part.v holds the invariant and its preservation by the table primitives, the "
-                    "listener-close arm needs the binding-index/bound-field agreement; the statement is checked on every "
-                    "implementation trace by the oracle (verif-hooks rows and counts after teardown) and by the correspondence")
+                    "(class OrphanLinger, c13_reclaimed_refuted).")
 
     def gen_cases(self, ctx):
         n = 400 if ctx.tier == "quick" else 3000
